@@ -4,7 +4,7 @@ import runlib as R
 ID = 'C20'
 COQ_TARGETS = ['Props/Properties_C20.vo']
 PROPS_FILES = ['Props/Properties_C20.v']
-THEOREMS = ['C20_sortmx', 'C20_sortmx_stable', 'C20_spec_checker_sound', 'C20_tryconn_once', 'C20_not_me', 'C20_targets', 'C20_route_order', 'C20_route_empty_relay', 'C20_ports']
+THEOREMS = ['C20_sortmx', 'C20_sortmx_stable', 'C20_spec_checker_sound', 'C20_tryconn_once', 'C20_not_me', 'C20_targets', 'C20_route_order', 'C20_route_empty_relay', 'C20_dnsmx', 'C20_getmxlist', 'C20_main', 'C20_ports']
 ENGINES = [dict(name='mx', c_sources=['mx_h.c'], extract='Extract/Extract_mx.v', driver='mx_driver.ml',
                 accepts=lambda c: c.split(' ')[0] in ('01', '02', '03', '04', '05', '06', '07'))]
 RULE = ('cases = (01) MX lists of 1..9 entries, preferences drawn from a small set with many ties plus the special values '
